@@ -11,10 +11,17 @@ Section Sem.
 Context {M : MatchOps} {L : MatchLaws M}.
 Variable mir : mirror.
 
-(* the invariant of observer o *)
+(* the invariant of observer o.  "Own" is the code's own notion (GetDataCallback: the name of the node's depth-2
+   ancestor is the session's id string), which contains the session's subtree. *)
 Definition J (sv : server) (o : sid) : Prop :=
   forall ss, get_session sv o = Some ss ->
-  forall q, own_path ss q = false -> V mir sv o q = Some (expected (sv_tree sv) ss q).
+  forall q, own_node ss q = false -> V mir sv o q = Some (expected (sv_tree sv) ss q).
+
+Lemma own_node_of_prefix : forall (ss : session) p, is_prefix (session_dir ss) p = true -> own_node ss p = true.
+Proof.
+  intros ss p H. apply is_prefix_spec in H as [r Hr]. subst p. unfold session_dir, own_node. cbn.
+  apply name_eqb_refl.
+Qed.
 
 (* ------------------------------------------------------------------ paths, counts and filters *)
 
